@@ -127,12 +127,94 @@ class Module:
         if not os.environ.get("OCTACHECK_NO_INLINE"):
             self._inline_new_helpers()
             self._tuple_view_of_new_namedtuples()
+            self._fold_constant_tests_and_tuple_locals()
             self._split_parallel_assignments()
+            self._fold_constant_tests_and_tuple_locals()  # (conditional assignments on a substituted constant are statements now)
         # locals the rules read by name are given their expected names in this parsed copy (octacheck.localnames); no-op on a
         # tree that already uses them
         from .localnames import canonicalise_module
 
         self.renamed_locals = canonicalise_module(self.name, self.functions)
+
+    def _fold_constant_tests_and_tuple_locals(self) -> None:
+        """in functions into which a helper was read: `if True: A else: B` (a constant argument substituted for a parameter) is A;
+        a local that is only ever bound to tuple displays of one length and only ever read by constant index is one local per
+        position (`state = (True, mode, h)` ... `state[2]`  ->  `state__2 = h` ... `state__2`)"""
+        for q in self.inlined_helpers:
+            fi = self.functions.get(q)
+            if fi is None:
+                continue
+            fn = fi.node
+            changed = False
+            # 1. constant tests
+            for parent in list(ast.walk(fn)):
+                for f in ("body", "orelse", "finalbody"):
+                    blk = getattr(parent, f, None)
+                    if not (isinstance(blk, list) and blk and isinstance(blk[0], ast.stmt)):
+                        continue
+                    out: list[ast.stmt] = []
+                    for st in blk:
+                        if isinstance(st, ast.If) and isinstance(st.test, ast.Constant) and isinstance(st.test.value, bool):
+                            out.extend(st.body if st.test.value else st.orelse)
+                            changed = True
+                        else:
+                            out.append(st)
+                    if not out:
+                        out = [ast.copy_location(ast.Pass(), blk[0])]
+                    setattr(parent, f, out)
+            # 2. tuple locals
+            names: dict[str, list[ast.Assign]] = {}
+            bad: set[str] = set()
+            for n in walk_no_nested(fn):
+                if isinstance(n, ast.Name) and isinstance(n.ctx, (ast.Store, ast.Del)):
+                    par = getattr(n, "_parent", None)
+                    if isinstance(par, ast.Assign) and len(par.targets) == 1 and par.targets[0] is n and isinstance(par.value, ast.Tuple) and not any(isinstance(e, ast.Starred) for e in par.value.elts):
+                        names.setdefault(n.id, []).append(par)
+                    else:
+                        bad.add(n.id)
+            params = {a.arg for a in ast.walk(fn.args) if isinstance(a, ast.arg)}  # type: ignore[attr-defined]
+            for nm, defs in names.items():
+                if nm in bad or nm in params or len({len(d.value.elts) for d in defs}) != 1:  # type: ignore[attr-defined]
+                    continue
+                k = len(defs[0].value.elts)  # type: ignore[attr-defined]
+                loads = [n for n in ast.walk(fn) if isinstance(n, ast.Name) and n.id == nm and isinstance(n.ctx, ast.Load)]
+                if not loads or not all(isinstance(getattr(n, "_parent", None), ast.Subscript) and n._parent.value is n and isinstance(n._parent.slice, ast.Constant) and isinstance(n._parent.slice.value, int) and 0 <= n._parent.slice.value < k and isinstance(n._parent.ctx, ast.Load) for n in loads):  # type: ignore[attr-defined]
+                    continue
+                taken = {x.id for x in ast.walk(fn) if isinstance(x, ast.Name)}
+                if any(f"{nm}__{i}" in taken for i in range(k)):
+                    continue
+                # element values must not read the local itself
+                if any(isinstance(x, ast.Name) and x.id == nm for d in defs for x in ast.walk(d.value)):
+                    continue
+                for d in defs:
+                    par = d._parent  # type: ignore[attr-defined]
+                    for f in ("body", "orelse", "finalbody"):
+                        blk = getattr(par, f, None)
+                        if isinstance(blk, list) and d in blk:
+                            i0 = blk.index(d)
+                            new = []
+                            for i, e in enumerate(d.value.elts):  # type: ignore[attr-defined]
+                                a = ast.Assign(targets=[ast.Name(id=f"{nm}__{i}", ctx=ast.Store())], value=e)
+                                ast.copy_location(a, d)
+                                ast.fix_missing_locations(a)
+                                new.append(a)
+                            blk[i0:i0 + 1] = new
+                for n in loads:
+                    sub = n._parent  # type: ignore[attr-defined]
+                    rep = ast.copy_location(ast.Name(id=f"{nm}__{sub.slice.value}", ctx=ast.Load()), sub)
+                    sp = sub._parent
+                    for f, v in ast.iter_fields(sp):
+                        if v is sub:
+                            setattr(sp, f, rep)
+                        elif isinstance(v, list):
+                            for i, x in enumerate(v):
+                                if x is sub:
+                                    v[i] = rep
+                changed = True
+            if changed:
+                for parent in ast.walk(fn):
+                    for child in ast.iter_child_nodes(parent):
+                        child._parent = parent  # type: ignore[attr-defined]
 
     def _split_parallel_assignments(self) -> None:
         """in functions into which a helper was read: `a, b = x, y` with plain-name targets none of which is read on the right is
